@@ -2192,6 +2192,10 @@ def part_c02(ctx, ncases=None, seed_cases=True):
                      'ret_ty': c.sig['ret'], 'returned': r.get('ret_val')})
     part_alias(ctx)
     part_poly(ctx)
+    part_client(ctx)
+    probe_client_iw(ctx)
+    part_util(ctx)
+    part_attrs(ctx)
     probe_empty_chunks(ctx)
     part_codec(ctx)
     ctx.cov['rule'] = ('cases = generated class universes (depth <= 4, inheritance, wrapped arrays, repeated members, facets) x '
@@ -2325,6 +2329,534 @@ def alias_universe(rng):
     U.classes.append(pair)
     U.by_name['Pair'] = pair
     return U, cd, pair
+
+
+# ===================================================================================== the protocol's own client legs
+CLIENT_CFGS = ([{'proto': p, 'validator': v, 'iw': False, 'cas': 'dict', 'poly': False} for p in ('json', 'yaml', 'msgpack') for v in (None, 'soft')] +
+               [{'proto': 'msgpackrpc', 'validator': v, 'iw': iw, 'cas': 'dict', 'poly': False} for v in (None, 'soft') for iw in (True, False)])
+
+
+def client_call(impl, cfg, args_native, ret_native):
+    """one call through spyne's own client legs, in process: `serialize(REQUEST)` + `create_out_string` write the request,
+    the server (Impl.run) answers it, `create_in_document` + `decompose_incoming_envelope(RESPONSE)` + `deserialize(RESPONSE)`
+    read the response. Returns (request bytes, server result, ('ok', value) | ('exc', class name, where))"""
+    from spyne.client import RemoteProcedureBase
+
+    class _InProcess(RemoteProcedureBase):
+        pass
+    app = impl.server(cfg).app
+    rp = _InProcess('in-process', app, impl.method)
+    cctx = rp.contexts[0]
+    rp.get_out_object(cctx, list(args_native), {})
+    rp.get_out_string(cctx)
+    req = b''.join(cctx.out_string)
+    r = impl.run(cfg, req, ret=ret_native)
+    if r['out'] is None or 'ok' not in r['outcome'] or r.get('resp_crash'):
+        return req, r, None
+    cctx.in_string = [r['out']]
+    try:
+        rp.get_in_object(cctx)
+    except Exception as e:
+        return req, r, ('exc', type(e).__name__, crash_site(e))
+    if cctx.in_error is not None:
+        return req, r, ('exc', 'in_error', repr(cctx.in_error)[:200])
+    return req, r, ('ok', cctx.in_object)
+
+
+def part_client(ctx, ncases=None):
+    """C02 with spyne on both ends: the request is WRITTEN by the protocol (client side, `serialize(REQUEST)`), the response is
+    READ by the protocol (`deserialize(RESPONSE)`).  T3: the user function gets the arguments the client passed, the client gets
+    the value the function returned.  T2: the written request body == the model's `encode` of the input message; the value read
+    == the model's `decodeResponse` of the response document.
+    Configurations: those in which the dict protocols can be used on both ends (ignore_wrappers=False for json / yaml /
+    msgpack -- with ignore_wrappers=True their REQUEST writer drops the method name: known finding -- and MessagePack-RPC)."""
+    rng = ctx.rng
+    ncases = ncases or (150 if ctx.thorough else 40)
+    B_wr, B_rd = Batch(ctx), Batch(ctx)
+    for ci in range(ncases):
+        # (every other universe sticks to the leaf kinds MessagePack can read back from its own writer)
+        c = Case(rng, nclasses=rng.choice([2, 3]), depth=rng.choice([2, 3]), kinds=None if ci % 2 else ['int', 'bool', 'str', 'bytes', 'time'])
+        ret_ty = c.sig['ret']
+        for vi in range(2):
+            args = c.gen_args(none_p=rng.choice([0.0, 0.2]))
+            if args is None:
+                continue
+            try:
+                rv = gen_field(rng, ret_ty, c.U)
+            except Unsat:
+                rv = None
+            if has_none_obj_item(ret_ty, rv) or any(has_none_obj_item(t, v) for (_, t), (_, v) in zip(c.sig['args'], args['o'][1])):
+                continue        # (known finding: a None item of an object array is written as {})
+            args_nat = [c.B.native(t, chunkify(rng, v)) for (_, t), (_, v) in zip(c.sig['args'], args['o'][1])]
+            ret_nat = c.B.native(ret_ty, chunkify(rng, rv))
+            for cfg in CLIENT_CFGS:
+                mp = cfg['proto'].startswith('msgpack')
+                if mp and not (mp_readable(c.in_ty) and mp_readable(ret_ty)):
+                    ctx.hit('client:skip:msgpack-cannot-read-its-own-date-text')
+                    continue
+                fam = 'msgpack' if mp else cfg['proto']
+                try:
+                    req, r, got = client_call(c.impl, cfg, args_nat, ret_nat)
+                except Exception as e:
+                    ctx.finding('client:request-not-written:%s:%s' % (fam, type(e).__name__),
+                                'the protocol cannot write the request for conformant arguments: %s' % crash_site(e),
+                                {'op': 'client', 'cfg': cfg, 'ty': c.in_ty, 'ret_ty': ret_ty, 'reg': c.U.registry(), 'args': args, 'returned': rv})
+                    continue
+                ctx.case({'client': cfg_key(cfg), 'ty': c.in_ty, 'args': args, 'ret': rv}, nontrivial(c.in_ty, args))
+                rep = {'op': 'client', 'cfg': cfg, 'ty': c.in_ty, 'ret_ty': ret_ty, 'reg': c.U.registry(), 'args': args, 'returned': rv}
+                # ---- T2: what was written
+                parsed = load(cfg['proto'], req)
+                body = parsed[3] if cfg['proto'] == 'msgpackrpc' else parsed
+                B_wr.add(c.query('encode', cfg, ty=c.in_ty, val=args), {'ok': doc_to_json(body)})
+                # ---- T3: the arguments arrive
+                ctx.hit('client:%s:request:%s' % (fam, next(iter(r['outcome']))))
+                if r['outcome'] != {'ok': args}:
+                    ctx.finding('client:args:%s:%s' % (fam, next(iter(r['outcome']))),
+                                'the request the protocol writes for conformant arguments does not hand them to the user function',
+                                dict(rep, request=list(req[:400]), observed=r['outcome'], where=r.get('where')))
+                    continue
+                if got is None:
+                    ctx.finding('client:no-response:%s' % fam, 'the response cannot be written: %s' % r.get('where'), rep)
+                    continue
+                # ---- T2 / T3: what is read
+                out = load(cfg['proto'], r['out'])
+                if got[0] == 'ok':
+                    try:
+                        val = {'ok': c.B.from_native(ret_ty, got[1])}
+                    except Leak as e:
+                        val = {'leak': True}
+                else:
+                    val = {'crash': got[1]} if got[1] not in ('ValidationError', 'in_error') else {'fault': 'Client'}
+                B_rd.add(c.query('readresponse', cfg, ty=ret_ty, doc=doc_to_json(out), method='f'), val)
+                ctx.hit('client:%s:response:%s' % (fam, next(iter(val))))
+                if val != {'ok': rv}:
+                    ctx.finding('client:response:%s:%s' % (fam, next(iter(val))),
+                                'the protocol does not read from the response the value the user function returned',
+                                dict(rep, response=list(r['out'][:400]), read=val, detail=got[1:] if got[0] == 'exc' else None))
+    B_wr.run('hier.client-request')
+    B_rd.run('hier.client-response')
+    ctx.cov['client_rule'] = ('generated signatures x conformant arguments / results (chunked bytes) through serialize(REQUEST) -> server -> '
+                              'deserialize(RESPONSE) of the same protocol object: json / yaml / msgpack with ignore_wrappers=False, MessagePack-RPC '
+                              'with both wrapper modes, validator None / soft')
+
+
+def part_util(ctx, ncases=None):
+    """spyne.util.dictdoc: get_object_as_doc / get_doc_as_object (and the deprecated *_dict aliases), get_object_as_json[_doc] /
+    json_loads, get_object_as_yaml[_doc] / yaml_loads, get_object_as_msgpack[_doc] -- the public shortcuts to `_object_to_doc` /
+    `_doc_to_object`.  T2: the document == the model's `encode`; T3: what the loader returns == the value."""
+    from spyne.util import dictdoc as D
+    rng = ctx.rng
+    ncases = ncases or (40 if ctx.thorough else 10)
+    B_enc = Batch(ctx)
+    for ci in range(ncases):
+        c = Case(rng, nclasses=rng.choice([2, 3, 4]), depth=rng.choice([2, 3]))
+        for cd in c.U.classes:
+            t = c.U.obj_ty(cd, occ())
+            try:
+                v = gen_poly_value(rng, t, c.U, p_sub=0.3)
+            except Unsat:
+                continue
+            if v is None or has_none_obj_item(t, v):
+                continue
+            cls = c.B.classes[cd['name']]
+            sub = v['o'][0] != cd['name']
+            for iw in (True, False):
+                for cas in ('dict', 'list'):
+                    if cas == 'list' and (not iw or not fully_populated(v) or sub):
+                        continue            # positional lists: fully populated objects of the declared class, no wrappers
+                    poly = sub or (not iw and rng.random() < 0.3)
+                    if sub and iw:
+                        continue            # the class of a subclass instance travels in the wrapper key
+                    kw = {'ignore_wrappers': iw, 'complex_as': list if cas == 'list' else dict}
+                    inst = c.B.native(t, chunkify(rng, v))
+                    if not sub and rng.random() < 0.5:
+                        cls_arg = None              # `cls=None`: the class of the instance
+                    else:
+                        cls_arg = cls
+                    rep = {'op': 'util', 'ty': t, 'reg': c.U.registry(), 'val': v, 'iw': iw, 'cas': cas, 'poly': poly}
+
+                    def judge(api, proto, doc, back, rep=rep):
+                        cfg = {'proto': proto, 'validator': None, 'iw': iw, 'cas': cas, 'poly': poly}
+                        ctx.case({'util': api, 'cfg': cfg_key(cfg), 'ty': t, 'val': v}, True)
+                        B_enc.add(c.query('encode', cfg, ty=t, val=v), {'ok': doc_to_json(doc)})
+                        ctx.hit('util:%s:%s' % (api, 'same' if back == v else 'differs'))
+                        if back != v:
+                            ctx.finding('util:%s:roundtrip' % api, 'spyne.util.dictdoc.%s and its loader do not round-trip a conformant instance' % api,
+                                        dict(rep, api=api, doc=doc_to_json(doc), back=back if not isinstance(back, str) else back[:300]))
+
+                    def native_back(f):
+                        try:
+                            return c.B.from_native(t, f())
+                        except Leak as e:
+                            return 'leak:%s' % e
+                        except Exception as e:
+                            return 'exception:%r at %s' % (e, crash_site(e))
+                    doc = None
+                    if not poly:
+                        try:
+                            doc = D.get_object_as_doc(inst, cls_arg, **kw)
+                        except ValueError as e:
+                            # the protocol behind get_object_as_doc has no binary encoding: a ByteArray member without an explicit
+                            # encoding is refused by design ("Arbitrary binary data can't be serialized to unicode")
+                            if 'Arbitrary binary data' not in str(e):
+                                raise
+                            ctx.hit('util:get_object_as_doc:bytes-without-encoding-refused')
+                    if doc is not None:
+                        if not iw and cas == 'dict' and isinstance(doc, dict) and list(doc) == [cd['name']] \
+                                and isinstance(doc[cd['name']], dict) and list(doc[cd['name']]) == [cd['name']]:
+                            ctx.finding('util:get_object_as_doc:double-wrapper',
+                                        'get_object_as_doc(ignore_wrappers=False) wraps the document that _object_to_doc already wrapped: '
+                                        '{"Cls": {"Cls": {...}}}, which get_doc_as_object does not read back',
+                                        dict(rep, api='get_object_as_doc', doc=doc_to_json(doc)))
+                            doc = doc[cd['name']]
+                        judge('get_object_as_doc', 'json', doc, native_back(lambda: D.get_doc_as_object(doc, cls, **kw)))
+                        d2 = D.get_object_as_dict(inst, cls_arg, **kw)
+                        if d2 != (doc if iw or cas != 'dict' else {cd['name']: doc}) and d2 != doc:
+                            ctx.finding('util:get_object_as_dict:alias', 'the deprecated alias answers differently', dict(rep, doc=doc_to_json(d2)))
+                    js = D.get_object_as_json(inst, cls_arg, polymorphic=poly, **kw)
+                    judge('get_object_as_json', 'json', json.loads(js.decode('utf8')),
+                          native_back(lambda: D.json_loads(js, cls, polymorphic=poly, **kw)))
+                    jd = D.get_object_as_json_doc(inst, cls_arg, polymorphic=poly, **kw)
+                    if not same_doc(json.loads(json.dumps(jd)), json.loads(js.decode('utf8'))):
+                        ctx.finding('util:get_object_as_json_doc:differs', 'get_object_as_json_doc is not the document get_object_as_json writes', rep)
+                    ys = D.get_object_as_yaml(inst, cls_arg, polymorphic=poly, **kw)
+                    judge('get_object_as_yaml', 'yaml', load('yaml', ys), native_back(lambda: D.yaml_loads(ys, cls, polymorphic=poly, **kw)))
+                    if not same_doc(load('yaml', dump('yaml', D.get_object_as_yaml_doc(inst, cls_arg, polymorphic=poly, **kw))), load('yaml', ys)):
+                        ctx.finding('util:get_object_as_yaml_doc:differs', 'get_object_as_yaml_doc is not the document get_object_as_yaml writes', rep)
+                    ms = D.get_object_as_msgpack(inst, cls_arg, polymorphic=poly, **kw)
+                    mcfg = {'proto': 'msgpack', 'validator': None, 'iw': iw, 'cas': cas, 'poly': poly}
+                    mdoc = load('msgpack', ms)
+                    try:
+                        mback = ref_decode(mcfg, t, mdoc, c.U)
+                    except (RefError, ValueError, UnicodeDecodeError, binascii.Error) as e:
+                        mback = repr(e)
+                    judge('get_object_as_msgpack', 'msgpack', mdoc, mback)
+                    if not same_doc(load('msgpack', dump('msgpack', D.get_object_as_msgpack_doc(inst, cls_arg, polymorphic=poly, **kw))), mdoc):
+                        ctx.finding('util:get_object_as_msgpack_doc:differs', 'get_object_as_msgpack_doc is not the document get_object_as_msgpack writes', rep)
+    for fn, empties in ((D.json_loads, (None, '')), (D.yaml_loads, (None, '', b''))):
+        for e in empties:
+            ctx.case({'util-empty': fn.__name__, 'arg': repr(e)}, True)
+            if fn(e, c.B.classes[c.U.classes[0]['name']]) is not None:
+                ctx.finding('util:%s:empty-input' % fn.__name__, 'no text is not read as None', {'op': 'util', 'api': fn.__name__, 'arg': repr(e)})
+    B_enc.run('hier.util-encode')
+    ctx.cov['util_rule'] = ('every class of generated universes x a conformant instance (subclass instances with polymorphic=True) x '
+                            'ignore_wrappers x complex_as through the 12 functions of spyne.util.dictdoc')
+
+
+# ===================================================================================== type attributes outside the shared universe
+def _attr_service():
+    """echo methods over types that use attributes the shared type universe does not have: Any, AnyDict, File, per-class
+    complex_as, simple_field, wrapper, default, exc, bare body style (T3 only)"""
+    from spyne import ServiceBase, rpc, ComplexModel, Unicode, Integer, Array, File, Any, AnyDict
+    mk = type(ComplexModel)
+    Pt = mk('APt', (ComplexModel,), {'__namespace__': TNS, '_type_info': [('x', Integer), ('y', Integer)]})
+    PtL = mk('APtL', (ComplexModel,), {'__namespace__': TNS, '_type_info': [('x', Integer), ('y', Integer)],
+                                      'Attributes': type('Attributes', (ComplexModel.Attributes,), {'complex_as': list})})
+    SF = mk('ASF', (ComplexModel,), {'__namespace__': TNS, '_type_info': [('v', Integer), ('w', Unicode)],
+                                    'Attributes': type('Attributes', (ComplexModel.Attributes,), {'simple_field': 'v'})})
+    WR = mk('AWR', (ComplexModel,), {'__namespace__': TNS, '_type_info': [('v', Integer)],
+                                    'Attributes': type('Attributes', (ComplexModel.Attributes,), {'wrapper': 'wrapped'})})
+    DX = mk('ADX', (ComplexModel,), {'__namespace__': TNS, '_type_info': [('dflt', Integer(default=7)), ('e', Unicode(empty_is_none=True)),
+                                                                         ('sec', Unicode(exc=True)), ('t', Unicode)]})
+    from spyne.model.complex import SelfReference
+    Node = mk('ANode', (ComplexModel,), {'__namespace__': TNS, '_type_info': [('name', Unicode), ('next', SelfReference), ('kids', Array(SelfReference))]})
+    Pt2 = mk('APt2', (ComplexModel,), {'__namespace__': TNS, '_type_info': [('x', Integer), ('y', Integer)]})
+    PtR = type('APtRaises', (Pt2,), {'x': property(lambda self: 1 // 0)})
+
+    def cyc(ctx):
+        n = Node(name='a')
+        n.next = n
+        n.kids = [Node(name='b'), n]
+        return n
+
+    def chain(ctx):
+        return Node(name='a', next=Node(name='b', next=Node(name='c')), kids=[Node(name='k')])
+
+    def dflt(ctx):
+        o = DX(t='t')
+        o.dflt = None               # a member that is None is written as its declared default
+        return o
+
+    def raiser(ctx):
+        o = PtR.__new__(PtR)
+        o.__dict__['y'] = 2
+        return o
+    Box = mk('ABox', (ComplexModel,), {'__namespace__': TNS, '_type_info': [('a', Any), ('d', AnyDict), ('f', File), ('p', Pt), ('pl', PtL), ('t', Unicode)]})
+    seen = []
+
+    def mkm(T, name, bare=False):
+        def f(ctx, v):
+            seen.append(v)
+            return v
+        f.__name__ = name
+        return rpc(T, _returns=T, **({'_body_style': 'bare'} if bare else {}))(f)
+    methods = {'any': mkm(Any, 'any'), 'anyd': mkm(AnyDict, 'anyd'), 'file': mkm(File, 'file'), 'ptl': mkm(PtL, 'ptl'),
+               'ptc': mkm(Pt.customize(complex_as=list), 'ptc'), 'sf': mkm(SF, 'sf'), 'wr': mkm(WR, 'wr'), 'dx': mkm(DX, 'dx'),
+               'box': mkm(Box, 'box'), 'bpt': mkm(Pt, 'bpt', True), 'bl': mkm(Array(Pt), 'bl', True), 'bi': mkm(Integer, 'bi', True),
+               'cyc': rpc(_returns=Node)(cyc), 'chain': rpc(_returns=Node)(chain), 'raiser': rpc(_returns=Pt2)(raiser), 'dflt': rpc(_returns=DX)(dflt)}
+    return type('AttrSvc', (ServiceBase,), methods), seen
+
+
+def _attr_run(svc, seen, proto, iw, cas, doc, charset=None):
+    from spyne import Application, MethodContext
+    from spyne.server import ServerBase
+    pc = proto_class(proto)
+    kw = dict(ignore_wrappers=iw, complex_as={'dict': dict, 'list': list, 'tuple': tuple}[cas])
+    app = Application([svc], TNS, name='AttrApp', in_protocol=pc(validator='soft', **kw), out_protocol=pc(**kw))
+    srv = ServerBase(app)
+    ic = MethodContext(srv, MethodContext.SERVER)
+    data = dump(proto, doc)
+    if charset:
+        data = data.decode('utf8').encode(charset)
+    ic.in_string = [data]
+    del seen[:]
+    try:
+        sc, = srv.generate_contexts(ic, in_string_charset=charset) if charset else srv.generate_contexts(ic)
+        if sc.in_error is None:
+            srv.get_in_object(sc)
+        if sc.in_error is None:
+            srv.get_out_object(sc)
+        srv.get_out_string(sc)
+        out = b''.join(sc.out_string)
+        err = sc.in_error or sc.out_error
+        if err is not None:
+            return {'fault': str(getattr(err, 'faultcode', err))}, repr(seen)
+        return {'ok': load(proto, out)}, repr(seen)
+    except Exception as e:
+        return {'exception': '%s at %s' % (type(e).__name__, crash_site(e))}, repr(seen)
+
+
+def _destr(d):
+    """bytes keys / text of MessagePack documents as str (File data stays bytes when it is no UTF-8)"""
+    if isinstance(d, dict):
+        return {_destr(k): _destr(v) for k, v in d.items()}
+    if isinstance(d, (list, tuple)):
+        return [_destr(x) for x in d]
+    if isinstance(d, bytes):
+        try:
+            return d.decode('utf8')
+        except UnicodeDecodeError:
+            return d
+    return d
+
+
+def part_attrs(ctx):
+    """type attributes outside the shared universe, T3 only.  Oracles: (1) the documented effect of the attribute on the result
+    document of an echo method; (2) where reading is the inverse of writing, the result document sent back as the argument
+    is accepted, answered with the same document, and the user function sees an equal value both times."""
+    svc, seen = _attr_service()
+    W = lambda iw, name, body: body if iw else {name: body}
+    FD = lambda mp: b'he\xffllo' if mp else 'aGX/bGxv'
+    OCT = 'application/octet-stream'
+    # name -> (method, argument(iw, mp), expected result(iw, mp) | None, read-back where: 'both' / 'iw' / None, wrapper modes)
+    scen = {
+        'any': ('any', lambda iw, mp: {'k': [1, 'x', None, {'z': 1.5}]}, lambda iw, mp: {'k': [1, 'x', None, {'z': 1.5}]}, 'both', (True, False)),
+        'anyd': ('anyd', lambda iw, mp: {'m': 1, 'n': {'o': [True]}}, lambda iw, mp: {'m': 1, 'n': {'o': [True]}}, 'both', (True, False)),
+        # File: the object form is written without its FileValue wrapper also when wrappers are kept (known: not read back then)
+        'file': ('file', lambda iw, mp: W(iw, 'FileValue', {'name': 'a.txt', 'type': 'text/plain', 'data': FD(mp)}),
+                 lambda iw, mp: {'name': 'a.txt', 'type': 'text/plain', 'data': FD(mp)}, 'both', (True, False)),
+        'file-plain': ('file', lambda iw, mp: FD(mp), lambda iw, mp: {'type': OCT, 'data': FD(mp)}, 'both', (True, False)),
+        'ptl': ('ptl', lambda iw, mp: [3, 4], lambda iw, mp: [3, 4], 'iw', (True,)),                 # class attribute complex_as=list
+        'ptc': ('ptc', lambda iw, mp: [5, 6], lambda iw, mp: [5, 6], 'iw', (True,)),                 # customize(complex_as=list)
+        'sf': ('sf', lambda iw, mp: W(iw, 'ASF', {'v': 5, 'w': 'a'}), lambda iw, mp: 5, None, (True, False)),       # simple_field: write-only
+        'wr': ('wr', lambda iw, mp: W(iw, 'AWR', {'v': 5}), lambda iw, mp: {'wrapped': {'v': 5}}, None, (True, False)),   # wrapper: write-only
+        # default written; exc member neither read nor written; empty_is_none: '' is read as None (and then not written)
+        'dx': ('dx', lambda iw, mp: W(iw, 'ADX', {'t': 't', 'sec': 's', 'e': ''}), lambda iw, mp: W(iw, 'ADX', {'dflt': 7, 't': 't'}), 'both', (True, False)),
+        'box': ('box', lambda iw, mp: {'a': [1, {'q': None}], 'd': {'m': 1}, 'f': {'name': 'n', 'type': 'x/y'}, 'p': {'x': 1, 'y': 2},
+                                        'pl': [3, 4], 't': 'T'},
+                lambda iw, mp: {'a': [1, {'q': None}], 'd': {'m': 1}, 'f': {'name': 'n', 'type': 'x/y'}, 'p': {'x': 1, 'y': 2}, 'pl': [3, 4], 't': 'T'},
+                'iw', (True,)),
+        'bpt': ('bpt', lambda iw, mp: {'x': 1, 'y': 2}, lambda iw, mp: W(iw, 'APt', {'x': 1, 'y': 2}), None, (True, False)),
+        'bl': ('bl', lambda iw, mp: [{'x': 1, 'y': 2}, {'x': 3, 'y': None}], lambda iw, mp: [{'x': 1, 'y': 2}, {'x': 3}], None, (True,)),
+        'bi': ('bi', lambda iw, mp: 5, lambda iw, mp: 5, None, (True, False)),
+    }
+    bare = ('bpt', 'bl', 'bi')
+    n = 0
+    for proto in PROTOS:
+        mp = proto.startswith('msgpack')
+        fam = 'msgpack' if mp else proto
+        for name, (method, mkarg, mkexp, readback, modes) in sorted(scen.items()):
+            for iw in modes:
+                arg = mkarg(iw, mp)
+
+                def request(a):
+                    body = a if method in bare else {'v': a}
+                    if proto == 'msgpackrpc':
+                        return [0, 1, method, body if (iw or method in bare) else {method: body}]
+                    return {method: body}
+
+                def result(o):
+                    d = _destr(o[3] if proto == 'msgpackrpc' else o)
+                    if method in bare:
+                        return d
+                    if not iw:
+                        d = d[method + 'Response']
+                    if not iw or proto == 'msgpackrpc':
+                        d = d.get(method + 'Result')
+                    return d
+                wm = 'iw' if iw else 'wrapped'
+                rep = {'op': 'attrs', 'scenario': name, 'proto': proto, 'iw': iw, 'request': doc_to_json(request(arg))}
+                r1, s1 = _attr_run(svc, seen, proto, iw, 'dict', request(arg))
+                n += 1
+                ctx.case({'attrs': name, 'proto': proto, 'iw': iw}, True)
+                if 'ok' not in r1:
+                    ctx.hit('attrs:%s:%s:%s' % (name, fam, next(iter(r1))))
+                    fid = ('attrs:bare:msgpackrpc' if method in bare and proto == 'msgpackrpc' else
+                           'attrs:bare-primitive:not-served' if name == 'bi' else
+                           'attrs:%s:%s:not-served:%s' % (name, wm, next(iter(r1))))
+                    ctx.finding(fid, 'a request for an echo method over a type with this attribute is not served: %s' % (r1,), dict(rep, first=r1))
+                    continue
+                try:
+                    back = result(r1['ok'])
+                except Exception as e:
+                    ctx.finding('attrs:%s:%s:response-shape' % (name, wm), 'the response has no result in the usual place: %r' % e,
+                                dict(rep, response=doc_to_json(r1['ok'])))
+                    continue
+                # ---- (1) documented effect
+                exp = _destr(mkexp(iw, mp))
+                jn = lambda x: json.loads(json.dumps(x, default=lambda b: list(b)))
+                okd = same_doc(jn(back), jn(exp))
+                ctx.hit('attrs:%s:%s:%s' % (name, fam, 'as-documented' if okd else 'differs'))
+                if not okd:
+                    ctx.finding('attrs:%s:%s:result-document' % (name, wm), 'the result document of the echo method is not what the attribute is documented to do',
+                                dict(rep, result=jn(back), expected=jn(exp)))
+                # ---- (2) reading inverts writing
+                if readback == 'both' or (readback == 'iw' and iw):
+                    raw = r1['ok'][3] if proto == 'msgpackrpc' else r1['ok']
+                    doc_back = raw
+                    if method not in bare:
+                        if not iw:
+                            doc_back = doc_back[next(iter(doc_back))]
+                        if not iw or proto == 'msgpackrpc':
+                            doc_back = doc_back[next(iter(doc_back))]
+                    r2, s2 = _attr_run(svc, seen, proto, iw, 'dict', request(doc_back))
+                    n += 1
+                    ok = r2 == r1 and s2 == s1
+                    ctx.hit('attrs:%s:%s:%s' % (name, fam, 'read-back' if ok else 'not-read-back'))
+                    if not ok:
+                        ctx.finding('attrs:%s:%s:own-output-not-read-back' % (method, wm),
+                                    'the result document the protocol writes for this type is not read back as the same value when it is sent as '
+                                    'the argument', dict(rep, first=doc_to_json(r1['ok']), second=r2 if 'ok' not in r2 else doc_to_json(r2['ok']),
+                                                         seen_first=s1[:300], seen_second=s2[:300]))
+    # ---- results that are not trees / whose members cannot be read
+    for proto in PROTOS:
+        for method, exp, what in (('cyc', {'name': 'a'}, 'a genuine cycle (an object that is its own member and an item of its own array) is pruned, '
+                                                          'the rest is written'),
+                                  ('chain', {'name': 'a', 'next': {'name': 'b', 'next': {'name': 'c'}}, 'kids': [{'name': 'k'}]},
+                                   'a chain of distinct objects of one self-referencing class is written in full'),
+                                  ('dflt', {'dflt': 7, 't': 't'}, 'a member that is None is written as its declared default'),
+                                  ('raiser', {'y': 2}, 'a member whose getter raises is written as absent')):
+            doc = [0, 1, method, {}] if proto == 'msgpackrpc' else {method: {}}
+            r1, _ = _attr_run(svc, seen, proto, True, 'dict', doc)
+            n += 1
+            ctx.case({'attrs-result': method, 'proto': proto}, True)
+            got = _destr(r1['ok'][3] if proto == 'msgpackrpc' and 'ok' in r1 else r1.get('ok')) if 'ok' in r1 else r1
+            if proto == 'msgpackrpc' and isinstance(got, dict):
+                got = got.get(method + 'Result')
+            ctx.hit('attrs:%s:%s' % (method, 'as-documented' if got == exp else 'differs'))
+            if got != exp:
+                ctx.finding('attrs:result:%s' % method, what + ' -- not so', {'op': 'attrs', 'scenario': method, 'proto': proto,
+                                                                            'result': json.loads(json.dumps(got, default=repr)), 'expected': exp})
+    # ---- complex_as=tuple: objects are written as sequences of (name, value) pairs
+    for proto in ('json', 'msgpack'):
+        for method, arg, exp in (('bpt', {'x': 1, 'y': 2}, [['x', 1], ['y', 2]]), ('dx', {'v': {'t': 't'}}, [['dflt', 7], ['t', 't']])):
+            r1, _ = _attr_run(svc, seen, proto, True, 'tuple', {method: arg})
+            n += 1
+            ctx.case({'attrs-tuple': method, 'proto': proto}, True)
+            got = _destr(r1.get('ok')) if 'ok' in r1 else r1
+            ctx.hit('attrs:tuple:%s:%s' % (method, 'as-documented' if got == exp else 'differs'))
+            if got != exp:
+                ctx.finding('attrs:tuple:%s' % method, 'complex_as=tuple does not write the object as (name, value) pairs',
+                            {'op': 'attrs', 'scenario': 'tuple:' + method, 'proto': proto, 'result': json.loads(json.dumps(got, default=repr)), 'expected': exp})
+    # ---- the request charset (json / yaml text in another encoding than UTF-8)
+    for proto in ('json', 'yaml'):
+        for cs in ('utf-16', 'utf-32', 'latin-1', 'cp1252'):
+            text = 'd\u00e9j\u00e0 \u00e7a' if cs in ('latin-1', 'cp1252') else 'd\u00e9j\u00e0 \u4e2d\U0001f600'
+            doc = {'dx': {'v': {'t': text}}}
+            from spyne.protocol.json import JsonDocument
+            data_doc = doc
+            r, s_ = None, None
+            try:
+                import yaml as _y
+                raw = (json.dumps(doc, ensure_ascii=False) if proto == 'json' else _y.safe_dump(doc, allow_unicode=True)).encode(cs)
+                r, s_ = _attr_run_raw(svc, seen, proto, raw, cs)
+            except Exception as e:
+                r = {'exception': repr(e)}
+            n += 1
+            ctx.case({'attrs-charset': cs, 'proto': proto}, True)
+            got = _destr(r.get('ok')) if 'ok' in r else None
+            ctx.hit('attrs:charset:%s:%s' % (cs, 'ok' if got == {'dflt': 7, 't': text} else 'fail'))
+            if got != {'dflt': 7, 't': text}:
+                ctx.finding('attrs:charset:%s:%s' % (proto, cs), 'a request body in the declared charset is not read as the text it holds',
+                            {'op': 'attrs-charset', 'proto': proto, 'charset': cs, 'text': text, 'observed': r})
+    # ---- JsonP: the JSON response inside a call of the callback
+    from spyne import Application, MethodContext
+    from spyne.server import ServerBase
+    from spyne.protocol.json import JsonP, JsonDocument
+    for cb in ('cb', 'a.b_c'):
+        for enc in ('utf8', None):
+            app = Application([svc], TNS, name='AttrApp', in_protocol=JsonDocument(), out_protocol=JsonP(cb))
+            srv = ServerBase(app)
+            ic = MethodContext(srv, MethodContext.SERVER)
+            ic.in_string = [dump('json', {'dx': {'v': {'t': 't\u00e9'}}})]
+            sc, = srv.generate_contexts(ic)
+            srv.get_in_object(sc)
+            srv.get_out_object(sc)
+            app.out_protocol.serialize(sc, app.out_protocol.RESPONSE)
+            app.out_protocol.create_out_string(sc, enc)
+            parts = list(sc.out_string)
+            out = b''.join(x if isinstance(x, bytes) else x.encode('utf8') for x in parts)
+            n += 1
+            ctx.case({'attrs-jsonp': cb, 'enc': enc}, True)
+            okp = out.startswith(cb.encode() + b'(') and out.endswith(b');') and \
+                json.loads(out[len(cb) + 1:-2].decode('utf8')) == {'dflt': 7, 't': 't\u00e9'} and \
+                all(isinstance(x, bytes) == (enc is not None) for x in parts)
+            ctx.hit('attrs:jsonp:%s' % ('ok' if okp else 'fail'))
+            if not okp:
+                ctx.finding('attrs:jsonp', 'JsonP does not write callback(<json response>); in the requested string type',
+                            {'op': 'attrs-jsonp', 'callback': cb, 'encoding': enc, 'out': out.decode('utf8', 'replace')[:300]})
+    ctx.cov['attrs_T3_only'] = n
+    ctx.cov['attrs_rule'] = ('echo methods over Any, AnyDict, File (object and plain form), per-class complex_as=list (class attribute and '
+                             'customize), simple_field, wrapper, default + exc members, a box of them, bare body style (object, array, '
+                             'primitive) x 4 protocols x ignore_wrappers x complex_as dict / tuple; request charsets utf-16 / utf-32 / latin-1 / cp1252')
+
+
+def _attr_run_raw(svc, seen, proto, raw, charset):
+    from spyne import Application, MethodContext
+    from spyne.server import ServerBase
+    pc = proto_class(proto)
+    app = Application([svc], TNS, name='AttrApp', in_protocol=pc(validator='soft'), out_protocol=pc())
+    srv = ServerBase(app)
+    ic = MethodContext(srv, MethodContext.SERVER)
+    ic.in_string = [raw]
+    del seen[:]
+    sc, = srv.generate_contexts(ic, in_string_charset=charset)
+    if sc.in_error is None:
+        srv.get_in_object(sc)
+    if sc.in_error is None:
+        srv.get_out_object(sc)
+    srv.get_out_string(sc)
+    err = sc.in_error or sc.out_error
+    if err is not None:
+        return {'fault': str(getattr(err, 'faultcode', err)) + ': ' + str(getattr(err, 'faultstring', ''))[:200]}, repr(seen)
+    return {'ok': load(proto, b''.join(sc.out_string))}, repr(seen)
+
+
+def probe_client_iw(ctx):
+    """ignore_wrappers=True on the client side of json / yaml / msgpack: the request has to name the method"""
+    B = Builder()
+    impl = Impl(B, {'args': [['a', INT_PLAIN]], 'ret': INT_PLAIN})
+    for proto in ('json', 'yaml', 'msgpack'):
+        cfg = dict(CFG_DEFAULT, proto=proto, iw=True)
+        req, r, got = client_call(impl, cfg, [5], 7)
+        ctx.case({'client-iw': proto}, True)
+        ok = r['outcome'] == {'ok': {'o': ['f', [['a', {'i': '5'}]]]}} and got == ('ok', 7)
+        ctx.hit('client:ignore_wrappers:%s:%s' % (proto, 'ok' if ok else 'fail'))
+        if not ok:
+            ctx.finding('client:ignore-wrappers-request-without-method-name',
+                        'with ignore_wrappers=True the protocol writes a request without the method name (and looks for the stripped '
+                        'wrapper in the response): it cannot be used on the client side',
+                        {'op': 'client-iw', 'cfg': cfg, 'request': list(req), 'server': r['outcome'], 'client': repr(got)[:200]})
 
 
 def probe_empty_chunks(ctx):
@@ -2573,6 +3105,37 @@ def part_t3_extra_leaves(ctx):
                                     {'op': 'decdigits', 'cfg': cfg, 'td': td, 'fd': fd, 'value': v, 'observed': r['outcome'],
                                      'where': r.get('where'), 'faultcode': r.get('faultcode')})
     ctx.cov['t3_decimal_digits'] = nd
+    # ---- foreign document nodes where a Decimal / Double / Uuid is declared: a client fault, never an internal error,
+    # and under soft validation nothing that is not a value of the declared type reaches user code
+    nf = 0
+    for cfg in ALL_CFGS:
+        if cfg['cas'] == 'list':
+            continue
+        mpk = cfg['proto'].startswith('msgpack')
+        K = (lambda s_: s_.encode('utf8')) if mpk else (lambda s_: s_)
+        pool = ['x', '', '1e', 'NaN', 'Infinity', '--1', '1.5', [1], [], {K('a'): 1}, {}, True, False, 7, 2.5, -0.0] + ([b'\xff', b'12'] if cfg['proto'] != 'json' else [])
+        for arg in ('d', 'x', 'u'):
+            for w in pool:
+                body = {K(arg): w}
+                if not cfg['iw']:
+                    body = {K('f'): body}
+                doc = [0, 1, 'f', body] if cfg['proto'] == 'msgpackrpc' else ({K('f'): body} if cfg['iw'] else body)
+                try:
+                    data = dump(cfg['proto'], doc)
+                except Exception:
+                    continue
+                r = impl.run(cfg, data)
+                nf += 1
+                kind = next(iter(r['outcome']))
+                fam = 'msgpack' if mpk else cfg['proto']
+                ctx.case({'extra-foreign': cfg_key(cfg), 'arg': arg, 'w': repr(w)}, True)
+                ctx.hit('extra-foreign:%s:%s:%s' % (arg, type(w).__name__, kind))
+                if kind == 'crash' or (kind == 'leak' and cfg['validator'] == 'soft'):
+                    ctx.finding('extra-leaf:foreign:%s:%s:%s:%s' % (fam, arg, kind, r['outcome'].get('crash') or r.get('leak')),
+                                'a %s node where a %s is declared %s' % (type(w).__name__, {'d': 'Decimal', 'x': 'Double', 'u': 'Uuid'}[arg],
+                                'raises %s (%s)' % (r['outcome'].get('crash'), r.get('where')) if kind == 'crash' else 'reaches user code under soft validation'),
+                                {'op': 'extra', 'cfg': cfg, 'doc': doc_to_json(doc), 'observed': r['outcome'], 'where': r.get('where'), 'leak': r.get('leak')})
+    ctx.cov['t3_extra_foreign_nodes'] = nf
     # D16: a JSON number where a Decimal is declared
     for cfg in ALL_CFGS:
         if cfg['cas'] == 'list' or not cfg['iw']:
@@ -2710,6 +3273,52 @@ def replay(ctx, obj):
         print('impl     :', json.dumps(r['outcome'])[:300], r.get('where') or '', r.get('faultcode') or '')
         body, _ = request_body(cfg, load(cfg['proto'], data))
         print('model    :', json.dumps(ctx.model([{'op': 'request', 'cfg': cfg, 'reg': obj['reg'], 'ty': obj['ty'], 'doc': doc_to_json(body)}], driver='C02')[0])[:300])
+        return 0
+    if op == 'attrs' and obj.get('request') is not None:
+        svc, seen = _attr_service()
+        r, sn = _attr_run(svc, seen, obj['proto'], obj.get('iw', True), 'dict', json_to_doc(obj['request']))
+        print('scenario:', obj.get('scenario'), obj['proto'], 'ignore_wrappers=%s' % obj.get('iw', True))
+        print('request :', dump(obj['proto'], json_to_doc(obj['request']))[:300])
+        print('impl    :', r if 'ok' not in r else dump(obj['proto'], r['ok'])[:300])
+        print('function saw:', sn[:300])
+        for k in ('expected', 'result', 'second'):
+            if k in obj:
+                print('%-8s:' % k, json.dumps(obj[k])[:300])
+        return 0
+    if op == 'client':
+        B = Builder()
+        reg = obj.get('reg') or []
+        B.register(reg)
+        B.universe_fields = {c['name']: c['fields'] for c in reg}
+        sig = {'args': obj['ty']['fields'], 'ret': obj['ret_ty']}
+        impl = Impl(B, sig)
+        cfg = obj['cfg']
+        args_nat = [B.native(t, v) for (_, t), (_, v) in zip(sig['args'], obj['args']['o'][1])]
+        req, r, got = client_call(impl, cfg, args_nat, B.native(obj['ret_ty'], obj['returned']))
+        print('config  :', cfg_key(cfg))
+        print('request written by the protocol:', req[:400])
+        print('server  :', json.dumps(r['outcome'])[:400], r.get('where') or '')
+        print('response:', (r['out'] or b'')[:300])
+        print('client read:', got if got is None or got[0] == 'exc' else B.from_native(obj['ret_ty'], got[1]))
+        print('passed  :', json.dumps(obj['args'])[:300], '| returned:', json.dumps(obj['returned'])[:200])
+        return 0
+    if op == 'util':
+        from spyne.util import dictdoc as D
+        B = Builder()
+        reg = obj.get('reg') or []
+        B.register(reg)
+        B.universe_fields = {c['name']: c['fields'] for c in reg}
+        t = obj['ty']
+        cls = B.classes[t['name']]
+        inst = B.native(t, obj['val'])
+        kw = {'ignore_wrappers': obj['iw'], 'complex_as': list if obj['cas'] == 'list' else dict}
+        api = obj.get('api', 'get_object_as_json')
+        print('value   :', json.dumps(obj['val'])[:300])
+        fn = getattr(D, api)
+        args = kw if api in ('get_object_as_doc', 'get_object_as_dict') else dict(kw, polymorphic=obj.get('poly', False))
+        out = fn(inst, cls, **args)
+        print('%s(..., %s):' % (api, args), out if not isinstance(out, bytes) else out[:400])
+        print('recorded:', json.dumps(obj.get('back'))[:300])
         return 0
     if op == 'decdigits':
         c = FixedCase([['d', {'k': 'dec', 'td': obj['td'], 'fd': obj['fd'], 'occ': occ()}]])
@@ -3271,7 +3880,9 @@ def c05_verdicts(ctx, c, args, what, B_req, B_conf):
     verdicts = {}
     binok = only_kinds(c.in_ty, ('int', 'bool', 'str', 'bytes'))
     extra = [dict(x, _extra=True) for x in MP_EXTRA_CFGS if x['validator'] == 'soft']
-    for cfg0 in C05_CFGS + extra + ([dict(x, _bin=True) for x in C05_CFGS + extra if x['proto'].startswith('msgpack')] if binok else []):
+    # positional form (complex_as=list, wrappers ignored) for fully populated argument tuples
+    pos = [dict(x, cas='list') for x in C05_CFGS if x['iw']] if fully_populated(args) else []
+    for cfg0 in C05_CFGS + pos + extra + ([dict(x, _bin=True) for x in C05_CFGS + extra if x['proto'].startswith('msgpack')] if binok else []):
         cfg = {k: v for k, v in cfg0.items() if k not in ('_bin', '_extra')}
         doc = ref_request(cfg, 'f', c.in_ty, args, c.U, bytes_keys=cfg['proto'].startswith('msgpack'))
         if cfg0.get('_bin'):
@@ -3966,6 +4577,9 @@ def part_c10(ctx):
                 for _ in range(rng.choice([1, 1, 2, 4])):
                     b[rng.randrange(len(b))] = rng.randrange(256)
                 judge(c, cfg, bytes(b), 'flipped')
+            # a well-formed request for a method the service does not have
+            unk = [0, 1, 'no_such_method', {}] if proto == 'msgpackrpc' else {(b'no_such_method' if proto == 'msgpack' else 'no_such_method'): {}}
+            judge(c, cfg, dump(proto, unk), 'unknown-method')
             # parser-level garbage
             for g in ({'json': JSON_BAD, 'yaml': YAML_BAD}.get(proto, MSGPACK_BAD)):
                 if rng.random() < (1.0 if ci == 0 else 0.15):
